@@ -497,6 +497,35 @@ extern "C" void vs_begin(const char* line) {
 }
 extern "C" void vs_end(void) { if (vs_tso_on && me) vs_tso_drain(); active = false; }
 
+// Function-local statics: libstdc++'s __cxa_guard_acquire blocks on a real futex when another thread is inside the
+// initialiser -- with the baton held that is a real deadlock.  Guard calls from the instrumented objects are wrapped
+// (-Wl,--wrap): under the baton a second thread yields until the first one has finished the initialisation.
+extern "C" {
+int __real___cxa_guard_acquire(long long*); void __real___cxa_guard_release(long long*); void __real___cxa_guard_abort(long long*);
+static long long* guard_busy[64]; static int guard_owner[64]; static int n_guard_busy = 0;
+int __wrap___cxa_guard_acquire(long long* g) {
+    if (!active || !me) return __real___cxa_guard_acquire(g);
+    for (;;) {
+        if (*(volatile char*)g) return 0;
+        int k = -1; for (int i = 0; i < n_guard_busy; i++) if (guard_busy[i] == g) k = i;
+        if (k < 0) { if (n_guard_busy < 64) { guard_busy[n_guard_busy] = g; guard_owner[n_guard_busy++] = me->id; } return 1; }
+        if (guard_owner[k] == me->id) return 1;      // recursive entry is undefined; do not hang
+        vs_yield();
+    }
+}
+static void guard_forget(long long* g) { for (int i = 0; i < n_guard_busy; i++) if (guard_busy[i] == g) { guard_busy[i] = guard_busy[n_guard_busy - 1]; guard_owner[i] = guard_owner[n_guard_busy - 1]; n_guard_busy--; return; } }
+void __wrap___cxa_guard_release(long long* g) {
+    bool mine = false; for (int i = 0; i < n_guard_busy; i++) if (guard_busy[i] == g) mine = true;
+    if (!mine) { __real___cxa_guard_release(g); return; }
+    __atomic_store_n((char*)g, 1, __ATOMIC_RELEASE); guard_forget(g);
+}
+void __wrap___cxa_guard_abort(long long* g) {
+    bool mine = false; for (int i = 0; i < n_guard_busy; i++) if (guard_busy[i] == g) mine = true;
+    if (!mine) { __real___cxa_guard_abort(g); return; }
+    guard_forget(g);
+}
+}
+
 // TSO: a delayed store must never land in memory its owner already freed (linked with -Wl,--wrap)
 extern "C" {
 void __real_free(void*);
